@@ -10,4 +10,7 @@ open Strengths.Gen.PyNumeric
 limited number of digits (the model computes its values exactly and its texts through `repr`) -/
 theorem rdscript_full_precision : fullPrecision inv_rdscript = true := by decide +kernel
 
+/-- `rdscript.py` takes no maximum / minimum / absolute value and swallows no exception: nothing it computes is clamped -/
+theorem rdscript_no_clamping : clamp_rdscript = [] := by decide +kernel
+
 end Strengths.PyNumeric
